@@ -113,7 +113,7 @@ def _finditer_twin(ctx):
 
 
 def _register_compound_forms(meth):
-    @contract(f"CompoundJSONPath.{meth}[text|file]=={meth}[parsed]", ("C11",), [CP + meth, "jsonpath._data:load_data"], replay=("compound_forms_replay", [meth], "compound_candidates"))
+    @contract(f"CompoundJSONPath.{meth}[text|file]=={meth}[parsed]", ("C11", "C08"), [CP + meth, "jsonpath._data:load_data"], replay=("compound_forms_replay", [meth], "compound_candidates"))
     def _c(ctx, meth=meth):
         """A compound query reads a file once and applies every operand to the same parsed value."""
         from contracts.paths import _text_inputs
